@@ -16,8 +16,8 @@ CLAIMED = {
            "The peak number of simultaneously live scheduler jobs (history variable updated at every submission/terminal answer, not only at poll boundaries) is proved <= throttle for every history; monitor recomputes the ledger from the real adapter calls.", "DESIGN.md §6 C03"),
  "C04": ex("one-live-job and never-relaunched history variables, monotone resolved sets, no orphans at a final verdict",
            "All three clauses are theorems over the model for every history (including failing submissions, hardware failures and restarts); monitor checks the scripted scheduler's ledger, state finality and live jobs at return.", "DESIGN.md §6 C04"),
- "C05": ex("verdict decision table (exhaustive, exclusive), exit codes over the regenerated enum, FINISHED iff all steps succeeded and no cancel",
-           "The truthfulness half is fully proved (decision table of _check_study_completion over reachable states; exit codes by decide over Gen/Enums). Termination for fair continuations is checked by the fair-tail monitor with the potential bound (liveness theorem: see C05Live if present).", "DESIGN.md §6 C05"),
+ "C05": ex("verdict decision table (exhaustive, exclusive), exit codes over the regenerated enum, FINISHED iff all steps succeeded and no cancel, and LIVENESS: progress of every decisive poll and termination within 2(n+1)+1 decisive polls from every reachable state (lexicographic measure; deadlock freedom from the 'untouched steps are INITIALIZED with dependency sets inside their parents' invariant, descendant closure and acyclicity)",
+           "Truthfulness: decision table of _check_study_completion over reachable states; exit codes by decide over Gen/Enums. Termination: C05_progress / C05_terminates are theorems for every acyclic well-formed configuration, every reachable state (any history of polls, lost answers, restarts, hardware failures, failed submissions, cancel requests) and every continuation in which the scheduler answers each tracked job with FINISHED / FAILED / UNKNOWN / CANCELLED; submissions may fail arbitrarily. The broader fairness notion (TIMEDOUT answers within a finite restart budget) is covered by the fair-tail monitor with the potential bound on the real code, not by a theorem.", "DESIGN.md §6 C05, §13.1"),
  "C06": ex("restart budget invariant, restart-only-with-command history variable, TIMEDOUT decision spelled out",
            "Budget and restart-script use are theorems for every history; the TIMEDOUT branch is characterised exactly; monitor checks script kind of each real submit, restart rounds and the Number Restarts value.", "DESIGN.md §6 C06"),
  "C07": ex("after a cancel request a poll only queries (event log), cancel args = tracked = live jobs, flag persists, CANCELLED when drained",
